@@ -13,27 +13,44 @@ from .common import call, call_func, driver_interp, new_obj
 def run(P: Program, rep: Report):
     rep.not_decided += ["closing braces at depth 0 (outside the brace-balanced domain of the separator rule)"]
     fi = P.func("middlewares.names", "split_multiple_persons_names")
-    rep.rule("C12.R0", "discipline: positions (pos, possible end, spans) never steer control flow in the splitter loop, so the "
+    rep.rule("C12.R0", "discipline: positions (a counter that only grows, names computed from it, the lists that collect them) never steer control flow in the splitter loop, so the "
                        "relational position abstraction of the product is sound")
     ex0 = andsplit.AndExplorer(P, rep.tier)
-    data_in_tests = sorted(v for v in ex0.control_vars if v in ("pos", "possible_end", "spans"))
-    rep.check(not data_in_tests, "C12.R0", "positions-not-in-tests", fi.loc, f"position variables {data_in_tests} are tested by the loop")
+    data_in_tests = sorted(v for v in ex0.control_vars if v in ex0.position_vars)
+    rep.extra["position_vars"] = sorted(ex0.position_vars)
+    if data_in_tests:
+        # a precondition of the product, not a clause of the property: an index-driven scanner is decided by the directed table alone
+        rep.not_decided.append(f"C12.R0: position variables {data_in_tests} steer the loop; the relational product (R1) is not sound for this shape")
+        rep.extra["exhaustive"] = False
+        rep.ok("C12.R0", "positions-steer-control", fi.loc, f"{data_in_tests}", nontrivial=False)
+    else:
+        rep.ok("C12.R0", "positions-not-in-tests", fi.loc)
     rep.rule("C12.R1", "separator automaton: the function, abstractly interpreted over a stream of character classes (backslash, "
                        "braces, whitespace kinds, a/A n/N d/D, other letters, ~ and comma), is bisimilar to the reference "
                        "transducer R-AND: it splits exactly at a case-insensitive `and` at brace depth 0 with whitespace on both "
                        "sides and a name on both sides; escapes and braced text never split; the spans (start / end of every "
                        "piece) agree at every character, so pieces and separators account for every character")
-    ex = ex0.explore()
+    try:
+        ex = ex0.explore()
+    except AnalysisError as e_:
+        ex = ex0
+        ex.unsupported.append(str(e_))
     rep.count("product_states", len(ex.visited))
     rep.count("product_paths", ex.paths)
     rep.count("product_completed_runs", ex.completed)
     rep.extra["states"] = len(ex.visited)
     rep.extra["transitions"] = ex.paths
     rep.extra["char_classes"] = ex.classes
-    if ex.unsupported:
-        raise AnalysisError(f"C12.R1: analyser cannot follow split_multiple_persons_names: {ex.unsupported[0]}")
-    if not ex.mismatches and (len(ex.visited) < 15 or ex.completed < 3):
-        raise AnalysisError(f"C12.R1: product exploration collapsed ({len(ex.visited)} states, {ex.completed} completed runs)")
+    product_problem = None
+    if ex.unsupported and not ex.mismatches:
+        product_problem = f"the analyser cannot follow split_multiple_persons_names as a stream scanner: {ex.unsupported[0]}"
+    elif not ex.mismatches and not ex.unbounded and (len(ex.visited) < 15 or ex.completed < 3):
+        product_problem = f"product exploration collapsed ({len(ex.visited)} states, {ex.completed} completed runs)"
+    if product_problem:
+        # a formulation the stream product does not fit (index arithmetic with look-ahead, ...): the directed table R5 decides alone
+        rep.not_decided.append(f"C12.R1 (product with the separator automaton): {product_problem}; the directed table R5 decides")
+        rep.extra["exhaustive"] = False
+        rep.ok("C12.R1", "and-automaton:product-not-applicable", fi.loc, product_problem, nontrivial=False)
     seen = set()
     for m in ex.mismatches:
         k = (m["cls"], m["message"].split(",")[0][:40])
@@ -41,7 +58,15 @@ def run(P: Program, rep: Report):
             continue
         seen.add(k)
         rep.fail("C12.R1", f"and-automaton:{m['cls']}:{m['input'][-6:]!r}", fi.loc, f"for the name list {m['input']!r}: {m['message']}", {"input": m["input"]})
-    if not ex.mismatches:
+    if product_problem:
+        pass
+    elif ex.unbounded and not ex.mismatches:
+        # the code keeps a (masked / filtered) copy of the text or reads it in a helper: the product has no finite state space
+        # under the analyser's abstraction; what was explored agreed, the directed table (R5) decides the rest up to its bound
+        rep.not_decided.append(f"C12.R1 beyond {ex.paths} explored runs: the splitter does not scan the text as a finite-state stream")
+        rep.extra["exhaustive"] = False
+        rep.ok("C12.R1", f"and-automaton:explored-{'prefix' if ex.unbounded else 'all'}", fi.loc, f"{ex.paths} runs (budget reached)", nontrivial=False)
+    elif not ex.mismatches:
         rep.ok("C12.R1", f"and-automaton:{len(ex.visited)}-states", fi.loc, f"{ex.paths} runs")
     for s in ex.samples[:5]:
         rep.samples.append({"rule": "C12.R1", "input": s, "status": "pieces == reference"})
@@ -87,15 +112,19 @@ def run(P: Program, rep: Report):
         mk = lambda c, *a, **k: new_obj(it, P, "model", c, *a, **k)
         e = mk("Entry", entry_type="a", key="k", start_line=0, raw="r", fields=AList([
             mk("Field", key="author", value=AList(["Ann A", "{B and C}", "D"]), start_line=1), mk("Field", key="title", value=AList(["x", "y"]), start_line=2),
-            mk("Field", key="editor", value="already a string", start_line=3)]))
+            mk("Field", key="editor", value="already a string", start_line=3),
+            # names are joined as they are: a piece that ends in an escaped blank (`Jr.\\ `) keeps it - stripped, the backslash would
+            # escape the separator's blank and the list would not split again
+            mk("Field", key="translator", value=AList(["Miller, Jr.\\ ", "Jones, B."]), start_line=4)]))
         try:
             out = call(it, it.construct(mc, [], {}), "transform_entry", e, Unknown("lib"))
             return [it.get_attr(f, "value") for f in it.iterate(it.get_attr(out, "fields"))]
         except (Raised, Unsupported) as ex_:
             return str(ex_)
     for ctx, v in explore(merge, 5):
-        ok = isinstance(v, list) and v[0] == "Ann A and {B and C} and D" and isinstance(v[1], AList) and v[2] == "already a string"
-        rep.check(ok, "C12.R3", "merge-literal", mc.loc, f"MergeCoAuthors yields {v!r}; expected 'Ann A and {{B and C}} and D', untouched title list and editor string")
+        ok = isinstance(v, list) and v[0] == "Ann A and {B and C} and D" and isinstance(v[1], AList) and v[2] == "already a string" \
+            and len(v) == 4 and v[3] == "Miller, Jr.\\  and Jones, B."
+        rep.check(ok, "C12.R3", "merge-literal", mc.loc, f"MergeCoAuthors yields {v!r}; expected 'Ann A and {{B and C}} and D', untouched title list and editor string, and the translator names joined verbatim (`Miller, Jr.\\\\  and Jones, B.`)")
 
     def separate(ctx):
         it = driver_interp(P, ctx, "middlewares.names")
@@ -117,7 +146,8 @@ def run(P: Program, rep: Report):
     def through(ctx):
         it = driver_interp(P, ctx, "middlewares.names")
         mk = lambda c, *a, **k: new_obj(it, P, "model", c, *a, **k)
-        vals = ["{Simon and Schuster}", "{Barnes} and {Noble}", '"Ann A" and "Bob B"', "Ann A and {B and C}", " Ann A and Bob B "]
+        vals = ["{Simon and Schuster}", "{Barnes} and {Noble}", '"Ann A" and "Bob B"', "Ann A and {B and C}", " Ann A and Bob B ",
+                "Smith, John and Doe, Anna and Smith, John", "X and X and X"]     # the same person twice stays twice
         out = []
         for v in vals:
             e = mk("Entry", entry_type="a", key="k", start_line=0, raw="r", fields=AList([mk("Field", key="author", value=v, start_line=1)]))
@@ -133,6 +163,48 @@ def run(P: Program, rep: Report):
         for v, got, want in rows:
             rep.check(got == want, "C12.R4", f"middleware-passes-value:{v!r}", sc.loc,
                       f"SeparateCoAuthors turns {v!r} into {got!r}; splitting that value gives {want!r}")
+
+    def several_fields(ctx):
+        """Every name field of an entry is split, whatever the other name fields hold (a blank one, a one-name one)."""
+        it = driver_interp(P, ctx, "middlewares.names")
+        mk = lambda c, *a, **k: new_obj(it, P, "model", c, *a, **k)
+        out = []
+        for first_val in (" ", "", "Solo Author", "A and B"):
+            e = mk("Entry", entry_type="a", key="k", start_line=0, raw="r", fields=AList([
+                mk("Field", key="author", value=first_val, start_line=1), mk("Field", key="editor", value="Ann A and Bob B and Carl C", start_line=2),
+                mk("Field", key="title", value="T and U", start_line=3), mk("Field", key="translator", value="X and Y", start_line=4)]))
+            try:
+                r = call(it, it.construct(sc, [], {}), "transform_entry", e, Unknown("lib"))
+                fs = {it.get_attr(f, "key"): it.get_attr(f, "value") for f in it.iterate(it.get_attr(r, "fields"))}
+                out.append((first_val, {k: (list(v.items) if isinstance(v, AList) else v) for k, v in fs.items()}))
+            except (Raised, Unsupported) as ex_:
+                out.append((first_val, str(ex_)))
+        return out
+    for ctx, rows in explore(several_fields, 5):
+        for first_val, fs in rows:
+            ok = isinstance(fs, dict) and fs.get("editor") == ["Ann A", "Bob B", "Carl C"] and fs.get("translator") == ["X", "Y"] and fs.get("title") == "T and U"
+            rep.check(ok, "C12.R4", f"every-name-field:author={first_val!r}", sc.loc,
+                      f"SeparateCoAuthors on an entry with author = {first_val!r}, editor and translator lists: {fs!r}; every name field must be split")
+
+    rep.rule("C12.R5", "directed table: the function run on every concatenation of up to five separator-relevant tokens (braces, escaped "
+                       "braces, a lone backslash, ` and `, a letter, a blank; more in the thorough tier) returns the pieces of R-AND - covers "
+                       "escapes inside brace groups and separators after them whatever the shape of the code")
+    dt = andsplit.directed_table(P, rep.tier)
+    rep.count("directed_texts", dt["texts"])
+    if dt["unsupported"]:
+        raise AnalysisError(f"C12.R5: analyser cannot follow split_multiple_persons_names on a concrete text: {dt['unsupported']}")
+    rep.require_count("C12.R5", "directed texts", dt["texts"], 5000)
+    shown = set()
+    for t, got, want in dt["bad"]:
+        k = tuple(len(x) for x in want), len(got) if isinstance(got, list) else got
+        if len(shown) >= 4:
+            break
+        if k in shown:
+            continue
+        shown.add(k)
+        rep.fail("C12.R5", f"directed:{t!r}", fi.loc, f"name list {t!r} splits into {got!r}; the separator rule gives {want!r}", {"input": t})
+    if not dt["bad"]:
+        rep.ok("C12.R5", f"directed:{dt['texts']}-texts", fi.loc)
 
     rep.rule("C12.R9", "no unsafe memoisation in the modules this property rests on: a function decorated with lru_cache / cache / "
                       "cached_property neither takes nor returns a mutable object (else later calls see stale or shared results)")
